@@ -61,6 +61,22 @@ CHECKS = {
    tech='metamorphic property-based testing: renderer-applied meaning-preserving rewrites (case, blanks/tabs, continuations, comments, message block, number spellings, shorthand) vs canonical rendering',
    text='A base deck is rendered canonically and under a drawn set of rewrites that MCNP treats as equivalent; both are converted and the outputs must have identical geometry and boundary conditions and numerically identical volume-composition associations.',
    note='Trusted: the renderer applies only rewrites named by the statement; composition names may differ, contents may not.'),
+ 'C15': dict(cat='exploration', ref='5/C15',
+   tech='metamorphic property-based testing: LIKE n BUT deck vs model-expanded explicit deck',
+   text='Generated base cells with every option family and LIKE n BUT cells overriding any subset of {mat, rho, u, fill, trcl, imp}, in chains and with forward references; the LIKE deck and the deck expanded by the harness model must convert to identical geometry / boundary conditions and numerically identical compositions.',
+   note='Trusted: copy-and-override semantics as stated in the property (importances override per particle type).'),
+ 'C16': dict(cat='exploration', ref='5/C16',
+   tech='property-based testing: generated flag placements with duplicates, randomized zero-set identity test between flagged MCNP surfaces and the SURFs named by the boundary-condition entries',
+   text='Decks with reflecting / white flags, flagged and unflagged duplicates under smaller and larger numbers, unused flagged surfaces and flagged macrobodies, with and without de-duplication; every entry must name a written SURF with the zero set of a flagged surface of the right kind, every flagged written surface gets exactly one entry, flagged macrobodies are rejected.',
+   note='Trusted: keyword mapping * -> REFLECTION, + -> COSINUS taken from the writer; one known finding (flag on single-facet macrobody accepted).'),
+ 'C17': dict(cat='fault_enumeration', ref='5/C17',
+   tech='fault injection: every fault class of the statement injected at drawn applicable sites of generated valid decks, plus exhaustive per-mnemonic and per-lattice-option enumeration',
+   text='Each fault class listed in the property is injected into decks that are first shown to convert; the run must stop with an error that names the problem (not an incidental IndexError/KeyError/TypeError... with a stock message). Entry-count faults are enumerated for every mnemonic, lattice-option faults on fixed 1/2/3-D lattices.',
+   note='Trusted: admissible entry counts per mnemonic from the MCNP manual; heuristic for "names the problem" stated in DESIGN.'),
+ 'C18': dict(cat='exploration', ref='5/C18',
+   tech='Hypothesis stateful testing (RuleBasedStateMachine): histories of conversions in one interpreter, differential against fresh processes under several hash seeds, file-system invariants',
+   text='Rule-based machine over a pool of generated decks and option sets: convert / convert_failing / reconvert / fresh_hashseed; after every step the in-process output must equal the memoised fresh-process output, hash seeds must not matter, the input file must be untouched and no stray file may appear.',
+   note='Trusted: fresh process = CLI entry under /venv/bin/python with the TatSu shim; quick tier runs without Hypothesis shrinking (own greedy step removal).'),
 }
 
 PENDING = {}
